@@ -2,6 +2,7 @@ package pki
 
 import (
 	"crypto/rand"
+	"crypto/sha1"
 	"crypto/x509"
 	"crypto/x509/pkix"
 	"encoding/asn1"
@@ -93,6 +94,7 @@ type Cert struct {
 
 	Extra  []pkix.Extension
 	SigAlg x509.SignatureAlgorithm
+	SKI    []byte // subjectKeyIdentifier override (default: SHA-1 of the public key)
 }
 
 var serialCounter atomic.Int64
@@ -262,6 +264,10 @@ func Issue(c *Cert, parent *x509.Certificate, parentKey *Key) (*x509.Certificate
 		ExtraExtensions:    c.extensions(),
 		SignatureAlgorithm: c.SigAlg,
 	}
+	tmpl.SubjectKeyId = c.SKI
+	if tmpl.SubjectKeyId == nil {
+		tmpl.SubjectKeyId = KeyID(c.Key)
+	}
 	par := parent
 	signKey := parentKey
 	if par == nil {
@@ -270,13 +276,16 @@ func Issue(c *Cert, parent *x509.Certificate, parentKey *Key) (*x509.Certificate
 	}
 	if c.IssuerCN != nil {
 		par = &x509.Certificate{Subject: pkix.Name{CommonName: *c.IssuerCN}}
+		if c.SignedBy != nil {
+			par.SubjectKeyId = KeyID(c.SignedBy) // becomes the authorityKeyIdentifier
+		}
 	}
 	if c.SignedBy != nil {
 		signKey = c.SignedBy
 		if par != tmpl && c.IssuerCN == nil {
 			// keep the issuer NAME, drop the issuer key: crypto/x509 refuses a
 			// parent whose public key does not match the signing key
-			par = &x509.Certificate{RawSubject: par.RawSubject, Subject: par.Subject}
+			par = &x509.Certificate{RawSubject: par.RawSubject, Subject: par.Subject, SubjectKeyId: par.SubjectKeyId}
 		}
 	}
 	der, err := x509.CreateCertificate(rand.Reader, tmpl, par, c.Key.Public(), signKey.Priv)
@@ -288,6 +297,16 @@ func Issue(c *Cert, parent *x509.Certificate, parentKey *Key) (*x509.Certificate
 		return nil, fmt.Errorf("pki: parse %q: %w", c.CN, err)
 	}
 	return cert, nil
+}
+
+// KeyID is the SHA-1 key identifier of a pool key's public key.
+func KeyID(k *Key) []byte {
+	der, err := x509.MarshalPKIXPublicKey(k.Public())
+	if err != nil {
+		panic(err)
+	}
+	h := sha1.Sum(der)
+	return h[:]
 }
 
 // Chain is a built chain with the keys that belong to it.
